@@ -315,6 +315,16 @@ func run(e *core.Env) {
 		nDst = 20 + tp.Intn(120)
 		e.Probe("large_universe")
 	}
+	// Saturation of one routing prefix (a quarter of the small-limit runs): every destination,
+	// every direct peer and every relay lives in one prefix with limit 1..2, slightly more
+	// destinations than the prefix admits, and almost nothing but additions - the per-prefix
+	// bound is approached from every order of peer routes, first routes and further routes.
+	saturate := custom && tp.Chance(1, 4)
+	if saturate {
+		prefixes = [][]byte{{0xfd, 0x12}}
+		nDst = 2*w.cfg.RoutablePrefixes[1].EntriesPerPrefix + 2 + tp.Intn(3)
+		e.Probe("one_prefix_saturated")
+	}
 	seen := map[netip.Addr]bool{w.self: true}
 	for k := uint32(0); len(w.dests) < nDst; k++ {
 		a := mkAddr(prefixes[tp.Intn(len(prefixes))], uint32(1+tp.Intn(4*nDst))+k*7919)
@@ -336,10 +346,15 @@ func run(e *core.Env) {
 	if nDst > 10 {
 		nOps = 100 + tp.Intn(500)
 	}
+	weights := []int{10, 3, 2, 2, 2, 3}
+	if saturate {
+		nOps = 60 + tp.Intn(120)
+		weights = []int{40, 1, 0, 0, 1, 1}
+	}
 	for op := 0; op < nOps; op++ {
 		e.Step()
 		before := w.rt.VerifEntries()
-		switch tp.Pick(10, 3, 2, 2, 2, 3) {
+		switch tp.Pick(weights...) {
 		case 0: // AddRoute
 			var entry m.RoutingTableEntry
 			peer := tp.Chance(1, 5)
